@@ -684,6 +684,9 @@ def p_zeros(itp, name, args, kw, node, st):
     # the *contents* of a fresh buffer depend on nothing; a dependence on its size is carried by the shape itself
     r = Num(zero_deg(), shape, cplx, zero=base.startswith(('zeros', 'empty')), taint=frozenset())
     r.fill = 0 if base.startswith('zeros') else (1 if base.startswith('ones') else None)
+    if base.startswith('zeros') and shape is not None and len(shape) == 1 and shape[0] is not None:
+        from . import cover as CV
+        r.cover = CV.whole(shape[0], 'zero')
     r.q = 'any' if r.zero else Aff(0)
     if base.startswith('ones'):
         r.role = 'ones'
@@ -1112,6 +1115,11 @@ def p_concat(itp, name, args, kw, node, st):
         r.q = cur
     if all(isinstance(p, Num) and p.idxseg is not None for p in parts):
         r.idxseg = [piece for p in parts for piece in p.idxseg]
+        if len(r.idxseg) == 2:
+            # a tent c - |i - o| (ascending run continued by a descending one) or a V |i - o|: its origin is the index of the turn
+            (n1, f1, s1), (n2, f2, s2) = r.idxseg
+            if n1 is not None and f1 is not None and f2 is not None and s1 == -s2 and f2 == f1 + n1.scale(s1):
+                r.org = n1
     segs = [p.seg if isinstance(p, Num) else None for p in parts]
     if all(sg is not None for sg in segs):
         from . import segmap
@@ -1371,6 +1379,10 @@ def p_fft(itp, name, args, kw, node, st):
         r.shape = None
     r.taint = a.taint | taints(nlen, axis)
     itp.events.append(('fft', node, base, a.shape, nlen, ax, a))
+    from . import cover as CV
+    src_ = args[0] if isinstance(args[0], Num) else a
+    for alt_ in CV.mixed(src_.cover):
+        itp.events.append(('fft-stale-input', node, CV.show(alt_), itp.cur.qname if itp.cur else ''))
     itp.events.append(('fft-out', node, r.shape, itp.cur.qname if itp.cur else ''))
     if itp.d4:
         itp.events.append(('fft-q', node, a.q, itp.cur.qname if itp.cur else ''))
@@ -1388,6 +1400,8 @@ def p_fft(itp, name, args, kw, node, st):
                 r.seg = segmap.identity('F', r.shape[i])
             r.segax = i
     r.mirror = False
+    if r.shape is not None and len(r.shape) == 1 and r.shape[0] is not None:
+        r.cover = CV.whole(r.shape[0], 'spec')
     if a.conj == 'E':
         r.conj = 'M'
     USED.add('fft/rfft/ifft(a, n, axis): linear; output length n (rfft: n//2+1) along axis; zero-pads when n >= len')
@@ -1880,6 +1894,46 @@ PRIMS['operator.mul'] = _binop_prim(ast.Mult)
 PRIMS['operator.add'] = _binop_prim(ast.Add)
 PRIMS['operator.sub'] = _binop_prim(ast.Sub)
 PRIMS['operator.truediv'] = _binop_prim(ast.Div)
+
+
+@prim('functools.reduce')
+def p_reduce(itp, name, args, kw, node, st):
+    """reduce(f, seq[, init]): the left fold; with operator.add it is sum(seq, init) term by term"""
+    if len(args) < 2:
+        return mk(itp, name, *args)
+    f, seq = args[0], args[1]
+    init = args[2] if len(args) > 2 else None
+    if isinstance(f, ExtV) and f.dotted in ('operator.add', 'operator.iadd'):
+        return p_sum(itp, 'builtins.sum', [seq] + ([init] if init is not None else []), {}, node, st)
+    el, n = itp.iter_elem(seq, node, None)
+    r = init if init is not None else el
+    for _ in range(2):
+        r = join(r, itp.call(f, [r, el], {}, node, st))
+    return r
+
+
+@prim('builtins.divmod')
+def p_divmod(itp, name, args, kw, node, st):
+    if len(args) != 2:
+        return mk(itp, name, *args)
+    return Tup([itp.binop(ast.FloorDiv(), args[0], args[1], node), itp.binop(ast.Mod(), args[0], args[1], node)])
+
+
+@prim('numpy.subtract.outer', 'numpy.add.outer', 'numpy.multiply.outer')
+def p_ufunc_outer(itp, name, args, kw, node, st):
+    """ufunc.outer(a, b)[i, j] = a[i] op b[j]: the broadcast a[:, newaxis] op b[newaxis, :]"""
+    if len(args) != 2:
+        return mk(itp, name, *args)
+    a, b = N(args[0]), N(args[1])
+    if a is None or b is None or a.shape is None or b.shape is None or len(a.shape) != 1 or len(b.shape) != 1:
+        return mk(itp, name, *args)
+    col = itp.index_value(args[0], Tup([SliceV(None, None, None), Const(None)]), node)
+    row = itp.index_value(args[1], Tup([Const(None), SliceV(None, None, None)]), node)
+    op = {'subtract': ast.Sub, 'add': ast.Add, 'multiply': ast.Mult}[name.split('.')[1]]()
+    from .interp_expr import grid_of
+    r = itp.binop(op, col, row, node)
+    grid_of(col, row, r, op)
+    return r
 
 
 @prim('builtins.map')
